@@ -36,10 +36,15 @@ func TestC17ConcurrentClear(t *testing.T) {
 		if rng.IntN(2) == 0 {
 			clearAt = rng.IntN(L)
 		}
+		// every third case: the other goroutine registers an upcaster for unrelated types instead, and
+		// the last step of the chain fails - the callback sees the original event and the failure is
+		// reported exactly once
+		unrelated := rng.IntN(3) == 0
 		yields := 1 + rng.IntN(200)
 		name := func(k int) string { return fmt.Sprintf("c17c.v%d", k) }
 		store := ebu.NewMemoryStore()
-		bus := ebu.New(ebu.WithStore(store), ebu.WithUpcastErrorHandler(func(string, json.RawMessage, error) {}))
+		errCalls := 0
+		bus := ebu.New(ebu.WithStore(store), ebu.WithUpcastErrorHandler(func(string, json.RawMessage, error) { errCalls++ }))
 		var wg sync.WaitGroup
 		started := false
 		for k := 0; k < L; k++ {
@@ -50,7 +55,9 @@ func TestC17ConcurrentClear(t *testing.T) {
 					wg.Add(1)
 					go func() {
 						defer wg.Done()
-						if clearAt < 0 {
+						if unrelated {
+							ebu.RegisterUpcastFunc(bus, "c17c.unrelated.a", "c17c.unrelated.b", func(d json.RawMessage) (json.RawMessage, string, error) { return d, "c17c.unrelated.b", nil })
+						} else if clearAt < 0 {
 							bus.ClearUpcasts()
 						} else {
 							bus.ClearUpcastsForType(name(clearAt))
@@ -59,6 +66,9 @@ func TestC17ConcurrentClear(t *testing.T) {
 					for y := 0; y < yields; y++ {
 						runtime.Gosched()
 					}
+				}
+				if unrelated && k == L-1 {
+					return nil, "", fmt.Errorf("verif: the last step of the chain fails")
 				}
 				var tr []int
 				json.Unmarshal(d, &tr)
@@ -96,6 +106,13 @@ func TestC17ConcurrentClear(t *testing.T) {
 			}
 			pre += "]"
 			okAfter = typ == name(clearAt) && data == pre
+		}
+		if unrelated {
+			run.Case(fmt.Sprintf("L%d|unrelated-registration|failing-last-step", L), true)
+			if err != nil || typ != name(0) || data != "[]" || errCalls != 1 {
+				run.Violation("upcast:failure-reports-under-concurrent-registration", fmt.Sprintf("chain v0 -> ... -> v%d whose last step fails, an upcaster for unrelated types registered by another goroutine while the first step ran: the callback saw type %s data %s (err %v; want the original v0 []), the error handler was called %d times (want 1)", L, typ, data, err, errCalls), map[string]any{"case": i, "chain_length": L})
+			}
+			continue
 		}
 		what := "ClearUpcasts()"
 		if clearAt >= 0 {
